@@ -15,14 +15,14 @@ import (
 
 // blockFam is a protocol family with small block limits.
 type blockFam struct {
-	Name     string
-	SRIH     bool
-	MaxTx    uint16
+	Name      string
+	SRIH      bool
+	MaxTx     uint16
 	SizeSlack int // MaxBlockSize = empty block + size(a4) + size(a0) + SizeSlack
-	maxSize  uint32
-	sc       *chainx.Scenario
-	fam      chainx.Family
-	batches  []chainx.Batch // the store content after the setup block
+	maxSize   uint32
+	sc        *chainx.Scenario
+	fam       chainx.Family
+	batches   []chainx.Batch // the store content after the setup block
 }
 
 // newNode opens a replica on a private copy of the family's store (the state
@@ -347,6 +347,103 @@ func (e *env) runBlocks() map[string]any {
 		"subsets": len(subs), "MaxBlockSystemFee": maxBlockSysFee, "jobs": len(jobs)}
 }
 
+// limits are the block limits of a family.
+type limits struct {
+	MaxTx   int
+	MaxSize int
+	MaxSys  int64
+	SRIH    bool
+}
+
+// propose does what a primary does with its pool and what its peers do with
+// the result: GetVerifiedTransactions -> ApplyPolicyToTxSet -> block built the
+// way consensus.newBlockFromContext builds it -> serialise -> parse -> the
+// backup-side checks of consensus.verifyBlock and AddBlock on a replica that
+// never saw the pool; then the proposer adds its own block and the state
+// roots must agree.
+func (e *env) propose(P *chainx.Node, name string, lim limits, newR func() (*chainx.Node, error), fail func(what, note string)) (int, int, string, bool) {
+	mp := P.BC.GetMemPool()
+	verified := mp.GetVerifiedTransactions()
+	sel := verified
+	if len(verified) > 0 {
+		sel = P.BC.ApplyPolicyToTxSet(verified)
+	}
+	e.out("proposable", fmt.Sprintf("%s:pool=%d->block=%d", name, len(verified), len(sel)))
+	e.r.Outcome(fmt.Sprintf("proposable:pool=%d->block=%d", len(verified), len(sel)))
+	e.count.states.Add(fmt.Sprintf("proposable/%s/%v", name, txids(verified)))
+	// the selection is a prefix of the pool order
+	for i := range sel {
+		if sel[i] != verified[i] {
+			fail("not-a-prefix-of-pool-order", fmt.Sprintf("selected %v of %v", txids(sel), txids(verified)))
+			return 0, 0, "", false
+		}
+	}
+	// limits on the selected set
+	if len(sel) > lim.MaxTx {
+		fail("exceeds-MaxTransactionsPerBlock", fmt.Sprintf("%d transactions, limit %d", len(sel), lim.MaxTx))
+	}
+	var sys int64
+	for _, tx := range sel {
+		sys += tx.SystemFee
+	}
+	if sys > lim.MaxSys {
+		fail("exceeds-MaxBlockSystemFee", fmt.Sprintf("%d > %d", sys, lim.MaxSys))
+	}
+	// build like consensus.newBlockFromContext, serialise
+	b, err := P.NewBlock(sel...)
+	if err != nil {
+		fail("harness-newblock", err.Error())
+		return 0, 0, "", false
+	}
+	wire, err := chainx.BlockBytes(b)
+	if err != nil {
+		fail("block-does-not-serialise", err.Error())
+		return 0, 0, "", false
+	}
+	if len(wire) > lim.MaxSize {
+		fail("exceeds-MaxBlockSize", fmt.Sprintf("serialised block is %d bytes, MaxBlockSize %d (%d transactions)", len(wire), lim.MaxSize, len(sel)))
+	}
+	// a replica that never saw the pool
+	R, err := newR()
+	if err != nil {
+		fail("harness-replica", err.Error())
+		return 0, 0, "", false
+	}
+	defer R.Close()
+	rb, err := chainx.DecodeBlock(wire, lim.SRIH)
+	if err != nil {
+		fail("block-does-not-parse", err.Error())
+		return 0, 0, "", false
+	}
+	// backup-side verification as consensus.verifyBlock does it
+	if sz := rb.GetExpectedBlockSize(); sz > lim.MaxSize {
+		fail("backup-rejects-size", fmt.Sprintf("expected block size %d > MaxBlockSize %d", sz, lim.MaxSize))
+	}
+	bp := mempool.New(len(rb.Transactions)+1, false, nil)
+	for _, tx := range rb.Transactions {
+		c, _ := transaction.NewTransactionFromBytes(tx.Bytes())
+		if err := R.BC.PoolTx(c, bp); err != nil {
+			fail("backup-rejects-tx", fmt.Sprintf("%s: %v", tx.Hash().StringLE(), err))
+		}
+	}
+	if err := R.BC.AddBlock(rb); err != nil {
+		fail("block-rejected-by-replica", err.Error())
+		return 0, 0, "", false
+	}
+	if err := P.BC.AddBlock(b); err != nil {
+		fail("block-rejected-by-proposer", err.Error())
+		return 0, 0, "", false
+	}
+	pr, rr := P.BC.GetStateModule().CurrentLocalStateRoot(), R.BC.GetStateModule().CurrentLocalStateRoot()
+	if pr != rr {
+		fail("state-roots-differ", fmt.Sprintf("proposer %s, replica %s", pr.StringLE(), rr.StringLE()))
+	}
+	if P.BC.CurrentBlockHash() != R.BC.CurrentBlockHash() {
+		fail("block-hashes-differ", "")
+	}
+	return len(sel), len(wire), pr.StringLE(), true
+}
+
 func (e *env) blockCase(f *blockFam, al *alpha, sub []int, order string, extra []byte) {
 	ord := ordered(sub, order)
 	rec := &caseRec{Sub: "proposable", Family: f.Name, Subset: ord, Order: order}
@@ -407,86 +504,11 @@ func (e *env) blockCase(f *blockFam, al *alpha, sub []int, order string, extra [
 			pooled++
 		}
 	}
-	mp := P.BC.GetMemPool()
-	verified := mp.GetVerifiedTransactions()
-	sel := verified
-	if len(verified) > 0 {
-		sel = P.BC.ApplyPolicyToTxSet(verified)
-	}
-	e.out("proposable", fmt.Sprintf("%s:pool=%d->block=%d", f.Name, len(verified), len(sel)))
-	e.r.Outcome(fmt.Sprintf("proposable:pool=%d->block=%d", len(verified), len(sel)))
-	e.count.states.Add(fmt.Sprintf("proposable/%s/%v", f.Name, txids(verified)))
-	// the selection is a prefix of the pool order
-	for i := range sel {
-		if sel[i] != verified[i] {
-			fail("not-a-prefix-of-pool-order", fmt.Sprintf("selected %v of %v", txids(sel), txids(verified)))
-			return
-		}
-	}
-	// limits on the selected set
-	if len(sel) > int(f.MaxTx) {
-		fail("exceeds-MaxTransactionsPerBlock", fmt.Sprintf("%d transactions, limit %d", len(sel), f.MaxTx))
-	}
-	var sys int64
-	for _, tx := range sel {
-		sys += tx.SystemFee
-	}
-	if sys > maxBlockSysFee {
-		fail("exceeds-MaxBlockSystemFee", fmt.Sprintf("%d > %d", sys, int64(maxBlockSysFee)))
-	}
-	// build like consensus.newBlockFromContext, serialise
-	b, err := P.NewBlock(sel...)
-	if err != nil {
-		fail("harness-newblock", err.Error())
+	nsel, wlen, root, ok := e.propose(P, f.Name, limits{MaxTx: int(f.MaxTx), MaxSize: int(f.maxSize), MaxSys: maxBlockSysFee, SRIH: f.SRIH}, f.newNode, fail)
+	if !ok {
 		return
 	}
-	wire, err := chainx.BlockBytes(b)
-	if err != nil {
-		fail("block-does-not-serialise", err.Error())
-		return
-	}
-	if len(wire) > int(f.maxSize) {
-		fail("exceeds-MaxBlockSize", fmt.Sprintf("serialised block is %d bytes, MaxBlockSize %d (%d transactions)", len(wire), f.maxSize, len(sel)))
-	}
-	// a replica that never saw the pool
-	R, err := f.newNode()
-	if err != nil {
-		fail("harness-replica", err.Error())
-		return
-	}
-	defer R.Close()
-	rb, err := chainx.DecodeBlock(wire, f.SRIH)
-	if err != nil {
-		fail("block-does-not-parse", err.Error())
-		return
-	}
-	// backup-side verification as consensus.verifyBlock does it
-	if sz := rb.GetExpectedBlockSize(); sz > int(f.maxSize) {
-		fail("backup-rejects-size", fmt.Sprintf("expected block size %d > MaxBlockSize %d", sz, f.maxSize))
-	}
-	bp := mempool.New(len(rb.Transactions)+1, false, nil)
-	for _, tx := range rb.Transactions {
-		c, _ := transaction.NewTransactionFromBytes(tx.Bytes())
-		if err := R.BC.PoolTx(c, bp); err != nil {
-			fail("backup-rejects-tx", fmt.Sprintf("%s: %v", tx.Hash().StringLE(), err))
-		}
-	}
-	if err := R.BC.AddBlock(rb); err != nil {
-		fail("block-rejected-by-replica", err.Error())
-		return
-	}
-	if err := P.BC.AddBlock(b); err != nil {
-		fail("block-rejected-by-proposer", err.Error())
-		return
-	}
-	pr, rr := P.BC.GetStateModule().CurrentLocalStateRoot(), R.BC.GetStateModule().CurrentLocalStateRoot()
-	if pr != rr {
-		fail("state-roots-differ", fmt.Sprintf("proposer %s, replica %s", pr.StringLE(), rr.StringLE()))
-	}
-	if P.BC.CurrentBlockHash() != R.BC.CurrentBlockHash() {
-		fail("block-hashes-differ", "")
-	}
-	e.r.Sample(map[string]any{"sub": "proposable", "family": f.Name, "inserted": ord, "pooled": pooled, "in_block": len(sel), "block_bytes": len(wire), "state_root": pr.StringLE()})
+	e.r.Sample(map[string]any{"sub": "proposable", "family": f.Name, "inserted": ord, "pooled": pooled, "in_block": nsel, "block_bytes": wlen, "state_root": root})
 }
 
 func txids(txs []*transaction.Transaction) []string {
